@@ -401,6 +401,21 @@ Fixpoint run (n : nat) (q : queue) : list value * ending :=
       end
   end.
 
+(** the same, also returning the queue as it is afterwards (for Latest() and for
+    an Add between two Next calls) *)
+Fixpoint run_state (n : nat) (q : queue) : list value * ending * queue :=
+  match n with
+  | O => ([], EMore, q)
+  | S n' =>
+      match next q with
+      | SDone => ([], EDone, q)
+      | SEmit v q' => let '(tr, e, qf) := run_state n' q' in (v :: tr, e, qf)
+      | SErr => ([], EErr, q)
+      | SPanic => ([], EPanic, q)
+      | SOut => ([], EOut, q)
+      end
+  end.
+
 Definition run_cfg (vs : list value) (g : tape) (disable_sync : bool) (n : nat)
   : list value * ending :=
   match reset vs g disable_sync with
